@@ -494,7 +494,7 @@ def replay(ctx, path):
 
 
 MANIFEST = dict(
-    technique='Coq model of the plane-level recogniser with unbounded round-trip theorems and of the characters -> plane scan (canvas.rs) with theorems on regular drawings, plus correspondence on drawn Unicode text (drawing -> recogniser -> fields, plane, orientation, evaluation vs DMN XML) and corruption/arbitrary-text robustness runs',
+    technique='Coq model of the plane-level recogniser with unbounded round-trip theorems and of the characters -> plane scan (canvas.rs) with a totality theorem for every text and text -> plane / text -> table theorems for every regular drawing, plus correspondence on drawn Unicode text (drawing -> recogniser -> fields, plane, orientation, evaluation vs DMN XML) and corruption/arbitrary-text robustness runs',
     text='coq/Props/C19.v (closed under the global context): for EVERY well-shaped table - any numbers of inputs, outputs, annotations, rules, any texts, with/without output label and allowed values - '
          'recognize_horizontal (layout_h t) = fields_of t (C19_plane_roundtrip_h); with the marker / rule-number column the whole plane of a rules-as-rows drawing is read back including orientation, hit policy and rule count '
          '(C19_plane_roundtrip_rows, abstract text parsers); pivot is an involution on rectangular planes and a rules-as-columns plane normalises to the same plane (C19_pivot_involutive, C19_columns_normalise); '
@@ -507,7 +507,14 @@ MANIFEST = dict(
          'CHARACTERS -> PLANE: coq/C19/Canvas.v is an executable transliteration of canvas.rs (lines / trim / rectangle of characters, information item name, the three crossings, body rectangle, the THIN / BODY / GRID layers, region walk and numbering, '
          'the walk of Canvas::plane, text_from_rect, Plane::finalize; results Ok / Err / Panic); every run requires canvas_cplane text = the outcome of scan + plane of the code (dv canvas) on 300 drawings of all styles and 400 noise texts - information item name, every cell with region number, rectangle and text, Err exactly when the code rejects - '
          'and canvas.rs on the text of the Gallina draw function = expected_plane for 60 random regular tables. Proved for EVERY regular drawing (any numbers of columns and lines, any widths, any texts without box characters): the passes of scan succeed with exactly the drawn crossings, body rectangle = the drawing, THIN = BODY = GRID (C19_canvas_scan_regular); '
-         'for every cell the region walk and the rectangle walk close on the drawn frame and the text read is the drawn text (C19_canvas_cells_regular). Bounded (81 shapes, vm_compute): text -> plane = the drawn plane, text -> table = the drawn table (C19_draw_roundtrip_regular_bounded_partial, C19_text_to_table_bounded_partial).',
+         'for every cell the region walk and the rectangle walk close on the drawn frame and the text read is the drawn text (C19_canvas_cells_regular); '
+         'the text splits back into the lines of the grid (C19_scan_layers_regular) and the WHOLE chain text -> lines -> canvas -> regions -> walk of Canvas::plane -> finalize gives exactly the drawn plane - every cell with region number, rectangle and text, the double-line cells, the line of the crossings - '
+         'canvas_cplane (draw d) = Ok (None, expected_plane d) (C19_draw_roundtrip_regular, coq/C19/CanvasAssembly.v); composed with the plane-level round trip through an erasure of region names (C19_recognize_plane_names_erased: with one header line no name is compared) '
+         'it gives text -> table end to end for EVERY rules-as-rows table drawn in the regular style with one header line, any sizes / widths / plain texts, any text parsers that read the drawn hit-policy and rule-number cells (C19_text_to_table_regular, coq/C19/CanvasTable.v). '
+         'TOTALITY: canvas_cplane text is never Panic for EVERY text (C19_canvas_total, coq/C19/CanvasTotal.v: the layers are rectangles, every point a search returns and every text area of a closed rectangle is inside), also for any rectangular grid given to the passes (C19_canvas_total_grid). '
+         'The 81-shape vm_compute sweeps of coq/C19/CanvasSweep.v are subsumed and kept as an independent computation (C19_canvas_nonvacuous).',
     category='proof',
-    note='PARTIAL: the character grid -> plane step (canvas.rs) is modelled (coq/C19/Canvas.v) and compared with the code cell by cell on every run, but proved for every shape only up to the per-cell steps (C19_canvas_scan_regular, C19_canvas_cells_regular: regular unmerged single-line drawings); the assembly of the plane rows and the splitting of the text into lines are proved on 81 bounded shapes only (C19_draw_roundtrip_regular_bounded_partial, C19_text_to_table_bounded_partial); merged / multi-line cells and totality of the scan on arbitrary text are covered by the correspondence only; a rules-as-columns drawing whose first input expression is itself a marker text (U, A, P, F, R, O, C, C+ ...) or whose first output label/name is a number other than 1 '
+    note='PARTIAL: the character grid -> plane step (canvas.rs) is modelled (coq/C19/Canvas.v), compared with the code cell by cell on every run, proved total (never Panic) for every text, and proved to read back the drawn plane / table for every REGULAR drawing (every cell its own frame, one line of text per cell, rules as rows with one header line for the table theorem); '
+         'drawings with merged or multi-line cells, an information item name, several header lines (label / allowed values) or rules as columns are covered at the character level by the correspondence only (their planes are covered by the plane-level theorems); '
+         'totality is about the Panic points of the model, which the correspondence ties to the panics of canvas.rs; a rules-as-columns drawing whose first input expression is itself a marker text (U, A, P, F, R, O, C, C+ ...) or whose first output label/name is a number other than 1 '
          'is rejected with an error by the code and by the model (hypotheses of C19_plane_roundtrip_columns). One panic of the pinned commit was repaired (fix: non-rectangular plane).')
